@@ -1,0 +1,23 @@
+//go:build verif
+
+// Contracts for governance proposals (comment-only).
+package api
+
+//@ import "github.com/oasisprotocol/oasis-core/go/common/quantity"
+
+//@ func Proposal.CloseProposal
+//@   props C10
+//@   safety div
+//@   requires p != nil && quantity.Val(&totalVotingStake) >= 0
+//@   precall quantity\.Quantity\)\.Quo$ :: quantity.Val(argAs[*quantity.Quantity](0)) > 0
+//@   ensures err == nil ==> p.State == StateRejected || p.State == StatePassed
+//@   ensures err != nil ==> p.State == old(p.State)
+//@   note the tally never divides by zero (an empty validator set is reported as an invalid proposal state before the division) and on every error return the proposal is left as it was
+
+//@ func Proposal.VotedSum
+//@   props C10
+//@   requires p != nil
+//@   modifies nothing
+//@   trustframe
+//@   loop 1 invariant votedSum != nil && fresh(votedSum)
+//@   ensures err == nil ==> result0 != nil && fresh(result0)
